@@ -16,9 +16,11 @@ def run_cases(chk, binr, cases, pf_ok, pf):
     for r in bad[:3]:
         chk.violation("a call returned something else than when run alone",
                       {"case": byid[r["id"]], "diffs": r["diffs"][:3]})
+    for f in K.FATAL[:2]:
+        chk.violation("concurrent validations took the process down (%s)" % f["message"], {"case": f["case"], "fatal": f["message"]})
     for rep in races[:3]:
         chk.violation("data race reported by the race detector", {"race_report": rep, "cases": "conc stream, seed %d" % chk.seed})
-    if not pf_ok and not bad and not races:
+    if not pf_ok and not bad and not races and not K.FATAL:
         chk.violation("proof obligations of C05 no longer check", {"theorem_or_correspondence": pf["failed"]}, no_input=True)
     g = [len(c["threads"]) for c in cases]
     chk.coverage.update({
